@@ -34,3 +34,33 @@ def cvc5_check(constraints, timeout_ms=10000):
             os.unlink(path)
         except OSError:
             pass
+
+
+def z3cli_check(constraints, timeout_ms=10000):
+    """Third opinion: the system z3 (4.8.12, /usr/bin/z3) on the same SMT-LIB text; its sequence solver decides some
+    lexicographic-order queries that z3 5.x and cvc5 leave open."""
+    if not os.path.exists("/usr/bin/z3"):
+        return "unknown"
+    s = z3.Solver()
+    for c in constraints:
+        s.add(c)
+    try:
+        text = s.to_smt2()
+    except Exception:
+        return "unknown"
+    fd, path = tempfile.mkstemp(suffix=".smt2", dir=os.environ.get("VERIF_SCRATCH", "/var/tmp"))
+    try:
+        with os.fdopen(fd, "w") as f:
+            f.write(text)
+        try:
+            out = subprocess.run(["/usr/bin/z3", f"-T:{max(1, int(timeout_ms / 1000))}", path], capture_output=True, text=True,
+                                 timeout=timeout_ms / 1000 + 5).stdout
+        except subprocess.TimeoutExpired:
+            return "unknown"
+        first = out.strip().splitlines()[0] if out.strip() else ""
+        return first if first in ("sat", "unsat") else "unknown"
+    finally:
+        try:
+            os.unlink(path)
+        except OSError:
+            pass
